@@ -340,7 +340,7 @@ func execHeadersFirst(f []string) string {
 // random interleavings, mostly parents first with some disorder and duplicates; some histories
 // restart the chain (new BlockChain on the same database with another utxo cache size).
 func genHeadersFirst(g *core.Gen) {
-	for i := 0; i < g.N(160, 1500); i++ {
+	for i := 0; i < g.N(140, 1500); i++ {
 		class, nontrivial, line := hfLine(g.R)
 		g.Case(class, nontrivial, "C17 "+line)
 	}
